@@ -28,7 +28,48 @@ pub fn corpus(max_len: usize) -> Vec<(String, Vec<u8>)> {
             }
         }
     }
+    v.push(("synthetic-extra-tables.ttf".to_string(), synthetic_extra()));
     v
+}
+
+/// A small TrueType font carrying table kinds that do not occur in the repository corpus (SVG, meta).
+fn synthetic_extra() -> Vec<u8> {
+    use read_fonts::tables::glyf::CurvePoint;
+    use write_fonts::tables::glyf::{Bbox, Contour, Glyph, SimpleGlyph};
+    let tri = |k: i16| {
+        let pts = vec![CurvePoint::new(0, 0, true), CurvePoint::new(300 + k, 0, true), CurvePoint::new(150, 500, true)];
+        Glyph::Simple(SimpleGlyph { bbox: Bbox { x_min: 0, y_min: 0, x_max: 300 + k, y_max: 500 }, contours: vec![Contour::from(pts)], instructions: vec![] })
+    };
+    // SVG: version, offset to the document list (10), reserved; list: 2 records (glyphs 1..1, 2..3), documents
+    let docs: [&[u8]; 2] = [b"<svg id=\"glyph1\"/>", b"<svg><g id=\"glyph2\"/><g id=\"glyph3\"/></svg>"];
+    let mut svg: Vec<u8> = vec![0, 0, 0, 0, 0, 10, 0, 0, 0, 0];
+    svg.extend([0, 2]);
+    let mut off = 2 + 2 * 12;
+    for (i, d) in docs.iter().enumerate() {
+        let (a, b) = if i == 0 { (1u16, 1u16) } else { (2, 3) };
+        svg.extend(a.to_be_bytes());
+        svg.extend(b.to_be_bytes());
+        svg.extend((off as u32).to_be_bytes());
+        svg.extend((d.len() as u32).to_be_bytes());
+        off += d.len();
+    }
+    for d in docs {
+        svg.extend(d);
+    }
+    // meta: version 1, flags 0, reserved, 2 data maps (dlng, slng)
+    let (dl, sl): (&[u8], &[u8]) = (b"en-Latn, Latn", b"Latn, Grek, Cyrl");
+    let mut meta: Vec<u8> = vec![0, 0, 0, 1, 0, 0, 0, 0, 0, 0, 0, 0, 0, 0, 0, 2];
+    let data_start = 16 + 2 * 12;
+    meta.extend(b"dlng");
+    meta.extend((data_start as u32).to_be_bytes());
+    meta.extend((dl.len() as u32).to_be_bytes());
+    meta.extend(b"slng");
+    meta.extend(((data_start + dl.len()) as u32).to_be_bytes());
+    meta.extend((sl.len() as u32).to_be_bytes());
+    meta.extend(dl);
+    meta.extend(sl);
+    let opts = crate::synth::SynthOpts { extra: vec![(Tag::new(b"SVG "), svg), (Tag::new(b"meta"), meta)], ..Default::default() };
+    crate::synth::truetype_font(&[Glyph::Empty, tri(1), tri(2), tri(3)], &opts).expect("synthetic extra font")
 }
 
 /// sfnt with the given tables (no checksums: the reader does not look at them)
